@@ -47,6 +47,8 @@ type CliEnv struct {
 	goRead   chan struct{}
 	goDone   chan struct{}
 	closing  bool
+	starting bool // NewClient has not returned yet
+	held     []J  // events of the starting client, recorded after ClientStart
 	Sink     *net.UDPConn
 	SinkPort int
 	Ungated bool // start the next client without the loop gates
@@ -105,6 +107,18 @@ func (e *CliEnv) Install() {
 		if e.Extra != nil && e.Extra(c, ev, args) {
 			return
 		}
+		// events of a client whose NewClient call has not returned yet are recorded after the
+		// ClientStart event (its loop goroutine may reach its first trace point before that)
+		emit := func(j J) {
+			e.mu.Lock()
+			if e.starting {
+				e.held = append(e.held, j)
+				e.mu.Unlock()
+				return
+			}
+			e.mu.Unlock()
+			e.T.Emit(j)
+		}
 		switch ev {
 		case "Send":
 			raw := args[0].([]byte)
@@ -115,9 +129,9 @@ func (e *CliEnv) Install() {
 			copy(sig[:], raw[16:])
 			// ground truth for the client's own signature needs the verifier: the key is the device's
 			ok := glow.Verify(e.KR.Pub(e.Name), RefReportSigningBytes(id, ts, val), sig)
-			e.T.Emit(J{"a": "Send", "id": int(e.ID), "d": J{"id": Clamp30(uint64(id)), "ts": Clamp30(uint64(ts)), "val": EValOf(val), "sigok": ok}})
+			emit(J{"a": "Send", "id": int(e.ID), "d": J{"id": Clamp30(uint64(id)), "ts": Clamp30(uint64(ts)), "val": EValOf(val), "sigok": ok}})
 		case "LoopRead":
-			e.T.Emit(J{"a": "LoopRead", "latest": Clamp30(uint64(args[0].(uint32)))})
+			emit(J{"a": "LoopRead", "latest": Clamp30(uint64(args[0].(uint32)))})
 		}
 	}
 	client.VerifYieldHook = func(c *client.Client, p string) {
@@ -159,13 +173,20 @@ func (e *CliEnv) Hist() []Pair {
 func (e *CliEnv) Start() error {
 	e.mu.Lock()
 	e.gateOn, e.closing = !e.Ungated, false
+	e.starting = true
 	e.mu.Unlock()
 	c, err := client.NewClient(e.Dir)
 	j := J{"a": "ClientStart", "ok": err == nil, "err": errStr(err), "hist": e.Hist(), "files": e.CliFilesJ(e.Dir)}
 	if err == nil {
 		j["state"] = e.CliStateJ(c.VerifState())
 	}
+	e.mu.Lock()
 	e.T.Emit(j)
+	for _, h := range e.held {
+		e.T.Emit(h)
+	}
+	e.held, e.starting = nil, false
+	e.mu.Unlock()
 	if err != nil {
 		return err
 	}
